@@ -364,6 +364,7 @@ type Expect struct {
 	ReqMD       metadata.MD // merged request metadata
 	HRecv       [][]byte    // messages the handler receives
 	HOpFail     []bool      // per HOp: must it return a non-nil error?
+	HOpEither   []bool      // per HOp: either result accepted (SetHeader with empty metadata after headers were sent)
 	SingleResp  bool
 	Cardinality bool // single-response method whose handler did not produce exactly one response with nil status
 }
@@ -390,11 +391,13 @@ func modelScript(s *Script) *Expect {
 	sent := false
 	nsent := 0
 	for _, op := range s.HOps {
-		fail := false
+		fail, either := false, false
 		switch op.Op {
 		case "sethdr":
 			if sent {
 				fail = true
+				// grpc-go returns nil for SetHeader with empty metadata whatever the state
+				either = len(op.MD) == 0
 			} else {
 				e.Headers = mergeMD(e.Headers, op.MD.MD())
 			}
@@ -413,6 +416,7 @@ func modelScript(s *Script) *Expect {
 			e.Msgs = append(e.Msgs, detBytes(s.Resps[op.Msg].Build()))
 		}
 		e.HOpFail = append(e.HOpFail, fail)
+		e.HOpEither = append(e.HOpEither, either)
 	}
 	if s.Kind == kUnary {
 		if e.Code == codes.OK {
